@@ -8,34 +8,46 @@ Require Import Celma.Common.Res Celma.FixedStr.FsBase Celma.FixedStr.FsModel
   Celma.FixedStr.FsIter.
 Local Open Scope N_scope.
 
-(** One step.  For every capacity 1 <= L < 2^64-1, every pair of well-formed
-    objects (L+1 bytes, length <= L, terminator at the length), every one of the
-    90 modelled entry points (all mutators: constructors, assign, the insert /
-    erase / push_back / pop_back / append / sprintf / replace families - sprintf
-    also with a vsnprintf call that fails after partial output -, swap, clear; all observers: compare, starts_with / ends_with / contains, substr,
-    copy, at / front / back / length / empty / str, == and !=, iteration in both
+(** One step.  The object is a FixedString<L>, the other object (the argument
+    of the two-object operations) a FixedString<Lo>; the two capacities are
+    independent, 1 <= L, Lo < 2^64-1.  For every pair of well-formed objects
+    (capacity+1 bytes, length <= capacity, terminator at the length), every one
+    of the 91 modelled entry points (all mutators: constructors incl. the
+    converting constructor from another capacity, assign, the insert / erase /
+    push_back / pop_back / append / sprintf / replace families - sprintf also
+    with a vsnprintf call that fails after partial output -, swap, clear; all
+    observers: compare, starts_with / ends_with / contains, substr, copy, at /
+    front / back / length / empty / str, == and !=, iteration in both
     directions, single steps ++ / -- / += / -= of the iterator and reverse
     iterator classes followed by operator*, the 30 overloads of the find family)
-    and all argument values
-    that fit into size_t - positions and counts up to 2^64-1 included -: the
-    operation returns normally (possibly by the documented out_of_range of
-    at()), no access leaves the object, the source arguments or the
-    destination of copy() (no [Fault]), and both objects are well-formed
-    afterwards.  [pre_A] is the caller contract: a (pointer, count) argument is
-    readable for count characters, append( first, last) gets a valid range. *)
+    and all argument values that fit into size_t - positions and counts up to
+    2^64-1 included -: the operation returns normally (possibly by the documented
+    out_of_range of at()), no read or write leaves either object, the source
+    arguments or the destination of copy() (no [Fault]: every memcpy / memmove /
+    memset / memcmp / strchr / index access of the model is checked against the
+    extent of the buffer it touches, reads included), and both objects are
+    well-formed afterwards.  [pre_A] is the caller contract: a (pointer, count)
+    argument is readable for count characters, append( first, last) gets a valid
+    range.  [cap_ok]: operations that exist only between objects of the same
+    type (move / copy constructor, swap, append( first, last), the find family
+    with a FixedString needle) require Lo = L; the converting constructor is
+    chosen only for Lo <> L. *)
 Theorem C10_step_safe :
-  forall L s o x,
-    CapOk L -> Inv L s -> Inv L o -> Bounded x -> pre_A s o x = true ->
-    exists s' o' v, step L s o x = Ok (s', o', v) /\ Inv L s' /\ Inv L o'.
-Proof. intros L s o x H. exact (step_safe L H s o x). Qed.
+  forall L Lo s o x,
+    CapOk L -> CapOk Lo -> Inv L s -> Inv Lo o -> Bounded x -> pre_A s o x = true ->
+    cap_ok (Lo =? L) x = true ->
+    exists s' o' v, step L s o x = Ok (s', o', v) /\ Inv L s' /\ Inv Lo o'.
+Proof. intros L Lo s o x H Ho. exact (step_safe L H Lo Ho s o x). Qed.
 Print Assumptions C10_step_safe.
 
-(** Any history of operations, from any well-formed pair of objects. *)
+(** Any history of operations, from any well-formed pair of objects of any two
+    capacities ([run] skips the steps outside the caller contract and the
+    operations that do not exist for the two capacities). *)
 Theorem C10_history_safe :
-  forall L ops s o,
-    CapOk L -> Inv L s -> Inv L o -> Forall Bounded ops ->
-    exists s' o' vs, run L s o ops = Ok (s', o', vs) /\ Inv L s' /\ Inv L o'.
-Proof. intros L ops s o H. exact (run_safe L H ops s o). Qed.
+  forall L Lo ops s o,
+    CapOk L -> CapOk Lo -> Inv L s -> Inv Lo o -> Forall Bounded ops ->
+    exists s' o' vs, run L Lo s o ops = Ok (s', o', vs) /\ Inv L s' /\ Inv Lo o'.
+Proof. intros L Lo ops s o H Ho. exact (run_safe L H Lo Ho ops s o). Qed.
 Print Assumptions C10_history_safe.
 
 (** The constructor from a C string of any length establishes the invariant. *)
@@ -139,12 +151,32 @@ Theorem C10_iterator_pinned_refuted :
 Proof. vm_compute. split; reflexivity. Qed.
 Print Assumptions C10_iterator_pinned_refuted.
 
+(** Two capacities: a full FixedString<20> compared with a FixedString<3>.  The
+    operator== of the code ("lengths equal && memcmp( lhs, rhs, length)") stays
+    inside both objects; a comparison folded into memcmp( lhs, rhs,
+    lhs.length() + 1) would read behind the 4-byte buffer of the right operand
+    (corpus case "A 20/3 ... eq ne" of props/C10.py). *)
+Definition fsL (L : N) (cs : list byte) : fs :=
+  match fs_init L cs with Ok s => s | _ => zero_fs L end.
+
+Example C10_mixed_capacity_witness :
+  Inv 20 (fsL 20 (repeat 113 20)) /\ Inv 3 (fsL 3 [114;114;114]) /\
+  cap_ok (3 =? 20) OEq = true /\
+  eq_op (fsL 20 (repeat 113 20)) (fsL 3 [114;114;114]) = Ok false /\
+  mcmp (buf (fsL 20 (repeat 113 20))) 0 (buf (fsL 3 [114;114;114])) 0
+       (len (fsL 20 (repeat 113 20)) + 1) = Fault OOBRead.
+Proof.
+  split; [repeat split; vm_compute; try reflexivity; discriminate|].
+  split; [repeat split; vm_compute; try reflexivity; discriminate|].
+  repeat split; vm_compute; reflexivity.
+Qed.
+
 (** Non-vacuity: the hypotheses are satisfiable and the theorems apply to a
     history with huge arguments on a full string. *)
 Example C10_nonvacuous :
   CapOk 10 /\ Inv 10 (fs10 aaaccccc) /\
   Forall Bounded [OInsC 3 [98;98;98;98]; OInsNC 3 NPOS 98; OSwap; OCopy NPOS 1; OFind RFind (FC [98;99]) 18446744073709551614] /\
-  match run 10 (fs10 aaaccccc) (fs10 [97;98]) [OInsC 3 [98;98;98;98]; OInsNC 3 NPOS 98; OSwap; OStr] with
+  match run 10 10 (fs10 aaaccccc) (fs10 [97;98]) [OInsC 3 [98;98;98;98]; OInsNC 3 NPOS 98; OSwap; OStr] with
   | Ok (_, _, vs) => vs = [RNone; RNone; RNone; RStr [97;98]]
   | _ => False
   end.
